@@ -438,4 +438,237 @@ theorem live_spawn {c : Cfg} {P P' : Thread} {s' : Shared} {lbl : String} (hv : 
   · intro _ h2
     simp [Shared.enqueueDone, Shared.setOwner, m0, st0, sp0, ex0, sr0] at h2
 
+/-! ## a configuration whose slots are all blocked or inert -/
+
+/-- `stuck_all_parked` with inert slots: if every slot is inert or cannot take its (non-timeout) step, all
+locks are free and every non-inert thread is `done` or parked without notification. -/
+theorem stuck_all_parked_inert {c : Cfg} (hl : LockInv c)
+    (hdead : ∀ (tid : Tid) (t : Thread), c.ths[tid]? = some t → t = inertT ∨ (stepThread c.sh t tid false).isSome = false) :
+    (∀ l, c.sh.owner l = none) ∧
+    ∀ tid t, c.ths[tid]? = some t →
+      t = inertT ∨ t.pc = .done ∨ (consWakePc t.pc = true ∧ tid ∉ c.sh.deqNotified) ∨
+        (prodWakePc t.pc = true ∧ tid ∉ c.sh.enqNotified) := by
+  have hA : ∀ tid t, c.ths[tid]? = some t → t = inertT ∨ blocked c.sh t tid = true := by
+    intro tid t ht
+    rcases hdead tid t ht with h | h
+    · exact Or.inl h
+    · rcases stepThread_en (hl.1 tid t ht) with h' | h'
+      · rw [h] at h'; cases h'
+      · exact Or.inr h'
+  have hst : c.sh.owner .st = none := by
+    cases ho : c.sh.owner .st with
+    | none => rfl
+    | some u =>
+      exfalso
+      have hu := hl.2 .st u ho
+      obtain ⟨tu, htu⟩ : ∃ tu, c.ths[u]? = some tu := ⟨c.ths[u], List.getElem?_eq_getElem hu⟩
+      have hh := (hl.1 u tu htu .st).mp ho
+      obtain ⟨h1, h2, h3, h4⟩ := holds_st_pc tu.pc hh
+      rcases hA u tu htu with h | this
+      · rw [h] at hh; simp [inertT, holds] at hh
+      · simp [blocked, acqBlocked, h1, h2, h3, h4] at this
+  have hcond : ∀ l, l ≠ .st → c.sh.owner l = none := by
+    intro l hne
+    cases ho : c.sh.owner l with
+    | none => rfl
+    | some u =>
+      exfalso
+      have hu := hl.2 l u ho
+      obtain ⟨tu, htu⟩ : ∃ tu, c.ths[u]? = some tu := ⟨c.ths[u], List.getElem?_eq_getElem hu⟩
+      have hh := (hl.1 u tu htu l).mp ho
+      rcases hA u tu htu with h | this
+      · rw [h] at hh; cases l <;> simp [inertT, holds] at hh
+      · cases l with
+        | st => exact hne rfl
+        | deq =>
+          obtain ⟨h1, h2, h3, h4⟩ := holds_deq_pc tu.pc hh
+          rcases h2 with h2 | h2 <;> simp [blocked, acqBlocked, h1, h2, h3, h4, hst] at this
+        | enq =>
+          obtain ⟨h1, h2, h3, h4⟩ := holds_enq_pc tu.pc hh
+          rcases h2 with h2 | h2 <;> simp [blocked, acqBlocked, h1, h2, h3, h4, hst] at this
+  have hall : ∀ l, c.sh.owner l = none := by
+    intro l; cases l
+    · exact hcond .deq (by simp)
+    · exact hcond .enq (by simp)
+    · exact hst
+  refine ⟨hall, fun tid t ht => ?_⟩
+  rcases hA tid t ht with h | this
+  · exact Or.inl h
+  right
+  unfold blocked at this
+  have hacq : acqBlocked c.sh t.pc = false := by
+    unfold acqBlocked
+    cases acqPc t.pc with
+    | none => rfl
+    | some l => simp [hall l]
+  rw [hacq] at this
+  simp only [hall, Option.isSome_none, Bool.false_or, Bool.or_false, Bool.or_eq_true,
+    Bool.and_eq_true, beq_iff_eq, Bool.not_eq_true', List.contains_eq_mem, decide_eq_false_iff_not] at this
+  rcases this with (h | h) | h
+  · exact Or.inl h
+  · exact Or.inr (Or.inl h)
+  · exact Or.inr (Or.inr h)
+
+theorem parked_class_inert (t : Thread)
+    (h : t = inertT ∨ t.pc = .done ∨ consWakePc t.pc = true ∨ prodWakePc t.pc = true) :
+    sawEmpty t = false ∧ sawFull t = false ∧ activeC t = false ∧ debtD t = false ∧
+    debtDAll t = false ∧ debtE t = false ∧ commitP t = false ∧ debtEAll t = false := by
+  rcases h with rfl | h
+  · obtain ⟨a1, a2, a3, a4, a5, a6, a7, -, -, -, -, -, -, -, a15, -⟩ := inert_class
+    exact ⟨a1, a2, a15, a3, a4, a5, a6, a7⟩
+  · exact parked_class t h
+
+/-- **No deadlock through an embedding** (`no_deadlock_of_live` with inert slots, no stopper): if the
+no-lost-wake-up invariant holds, there is a producer whenever there is a consumer, a bounded queue has a
+consumer, and every slot is inert or cannot take its step, then every non-inert thread is `done`. -/
+theorem dead_all_done {c : Cfg} (hv : Live c) (hto : c.sh.timeout = false)
+    (hP : anyT c isCons → 0 < c.ths.countP isProd)
+    (hC : c.sh.cap = 0 ∨ anyT c isCons)
+    (hdead : ∀ (tid : Tid) (t : Thread), c.ths[tid]? = some t → t = inertT ∨ (stepThread c.sh t tid false).isSome = false) :
+    ∀ (tid : Tid) (t : Thread), c.ths[tid]? = some t → t = inertT ∨ t.pc = .done := by
+  have hb := hv.base
+  obtain ⟨hfree, hpark⟩ := stuck_all_parked_inert hb.lock hdead
+  obtain ⟨ndD, ndE, memD, memE⟩ := hb.wait
+  have hpark' : ∀ (tid : Tid) (t : Thread), c.ths[tid]? = some t →
+      t = inertT ∨ t.pc = .done ∨ consWakePc t.pc = true ∨ prodWakePc t.pc = true := by
+    intro tid t ht
+    rcases hpark tid t ht with h | h | h | h
+    · exact Or.inl h
+    · exact Or.inr (Or.inl h)
+    · exact Or.inr (Or.inr (Or.inl h.1))
+    · exact Or.inr (Or.inr (Or.inr h.1))
+  have hno : ∀ P : Thread → Bool,
+      (∀ t : Thread, (t = inertT ∨ t.pc = .done ∨ consWakePc t.pc = true ∨ prodWakePc t.pc = true) → P t = false) →
+      ¬ anyT c P := by
+    rintro P hPf ⟨t, ht, hp⟩
+    obtain ⟨j, hj⟩ := List.getElem?_of_mem ht
+    rw [hPf t (hpark' j t hj)] at hp; cases hp
+  have hdn : c.sh.deqNotified = [] := by
+    rw [List.eq_nil_iff_forall_not_mem]
+    intro x hx
+    obtain ⟨t, ht, hc⟩ := (memD x).mp (by unfold wlD; exact List.mem_append_left _ hx)
+    rcases hpark x t ht with h | h | h | h
+    · rw [h] at hc; simp [inertT, consWakePc] at hc
+    · rw [h] at hc; simp [consWakePc] at hc
+    · exact h.2 hx
+    · have := (wake_kind t (hb.tok t (List.mem_of_getElem? ht)))
+      have a := (this.1 hc).2.2; have b := (this.2 h.1).2.2
+      rw [a] at b; cases b
+  have hen : c.sh.enqNotified = [] := by
+    rw [List.eq_nil_iff_forall_not_mem]
+    intro x hx
+    obtain ⟨t, ht, hc⟩ := (memE x).mp (by unfold wlE; exact List.mem_append_left _ hx)
+    rcases hpark x t ht with h | h | h | h
+    · rw [h] at hc; simp [inertT, prodWakePc] at hc
+    · rw [h] at hc; simp [prodWakePc] at hc
+    · have := (wake_kind t (hb.tok t (List.mem_of_getElem? ht)))
+      have a := (this.1 h.1).2.2; have b := (this.2 hc).2.2
+      rw [a] at b; cases b
+    · exact h.2 hx
+  have hcw : ∀ (tid : Tid) (t : Thread), c.ths[tid]? = some t → consWakePc t.pc = true → c.sh.deqWait ≠ [] := by
+    intro tid t ht hc
+    have : tid ∈ wlD c.sh := (memD tid).mpr ⟨t, ht, hc⟩
+    unfold wlD at this; rw [hdn, List.nil_append] at this
+    intro e; rw [e] at this; cases this
+  have hpw : ∀ (tid : Tid) (t : Thread), c.ths[tid]? = some t → prodWakePc t.pc = true → c.sh.enqWait ≠ [] := by
+    intro tid t ht hc
+    have : tid ∈ wlE c.sh := (memE tid).mpr ⟨t, ht, hc⟩
+    unfold wlE at this; rw [hen, List.nil_append] at this
+    intro e; rw [e] at this; cases this
+  have hcons : anyT c isCons → c.sh.deqWait ≠ [] ∨ c.sh.enqueueDone = true := by
+    rintro ⟨t, ht, hs⟩
+    obtain ⟨j, hj⟩ := List.getElem?_of_mem ht
+    have hk := wake_kind t (hb.tok t ht)
+    rcases hpark' j t hj with h | h | h | h
+    · rw [h] at hs; simp [inertT, isCons, Prog.kind] at hs
+    · right
+      have : armed t = true := by unfold armed; rw [h]; exact hs
+      rcases (hb.xok t ht).2.2.2.2.1 this with h1 | h1
+      · exact hb.i3 h1
+      · rw [hto] at h1; cases h1
+    · exact Or.inl (hcw j t hj h)
+    · rw [(hk.2 h).1] at hs; cases hs
+  have nAC := hno activeC (fun t h => (parked_class_inert t h).2.2.1)
+  have nDD := hno debtD (fun t h => (parked_class_inert t h).2.2.2.1)
+  have nDA := hno debtDAll (fun t h => (parked_class_inert t h).2.2.2.2.1)
+  have nDE := hno debtE (fun t h => (parked_class_inert t h).2.2.2.2.2.1)
+  have nCP := hno commitP (fun t h => (parked_class_inert t h).2.2.2.2.2.2.1)
+  have nEA := hno debtEAll (fun t h => (parked_class_inert t h).2.2.2.2.2.2.2)
+  by_cases hPC : c.sh.deqWait = []
+  · by_cases hPP : c.sh.enqWait = []
+    · intro tid t ht
+      rcases hpark' tid t ht with h | h | h | h
+      · exact Or.inl h
+      · exact Or.inr h
+      · exact absurd hPC (hcw tid t ht h)
+      · exact absurd hPP (hpw tid t ht h)
+    · exfalso
+      have hnd : ¬ c.sh.enqueueDone = true := fun hd => nEA (hv.k2 (Or.inl hPP) hd)
+      obtain ⟨x, hx⟩ := List.exists_mem_of_ne_nil _ hPP
+      obtain ⟨t, ht, hc⟩ := (memE x).mp (by unfold wlE; exact List.mem_append_right _ hx)
+      have hcap : c.sh.cap ≠ 0 := XOK_cap (hb.xok t (List.mem_of_getElem? ht)) hc
+      rcases hC with h | h
+      · exact hcap h
+      · rcases hcons h with h | h
+        · exact h hPC
+        · exact hnd h
+  · exfalso
+    have hnd : ¬ c.sh.enqueueDone = true := fun hd => nDA (hv.j2 (Or.inl hPC) hd)
+    have hq : c.sh.q = [] := by
+      cases hqq : c.sh.q with
+      | nil => rfl
+      | cons a l =>
+        exfalso
+        rcases hv.j1 (Or.inl hPC) (by rw [hqq]; simp) with h | h | h | h
+        · exact h hdn
+        · exact nAC h
+        · exact nDD h
+        · exact hnd h
+    obtain ⟨x, hx⟩ := List.exists_mem_of_ne_nil _ hPC
+    obtain ⟨tc, htc, hcc⟩ := (memD x).mp (by unfold wlD; exact List.mem_append_right _ hx)
+    have hisc : anyT c isCons :=
+      ⟨tc, List.mem_of_getElem? htc, ((wake_kind tc (hb.tok tc (List.mem_of_getElem? htc))).1 hcc).1⟩
+    have hnd' := hnd
+    rw [enqueueDone_iff] at hnd'
+    have hsr : c.sh.stopRequested = false := by
+      cases h : c.sh.stopRequested with
+      | false => rfl
+      | true => exact absurd (Or.inr (Or.inl h)) hnd'
+    obtain ⟨e1, e2, e3⟩ := hb.cnt hsr
+    have hpos : 0 < c.ths.countP isProd := hP hisc
+    have hle1 : c.ths.countP pastT ≤ c.ths.countP pastS :=
+      List.countP_mono_left (fun y _ h => pastT_pastS y h)
+    have hle2 : c.ths.countP pastS ≤ c.ths.countP isProd :=
+      List.countP_mono_left (fun y _ h => pastS_isProd y h)
+    have hlt : c.ths.countP pastT < c.ths.countP isProd := by
+      rcases Nat.lt_or_ge (c.ths.countP pastT) (c.ths.countP isProd) with h | h
+      · exact h
+      · exfalso
+        apply hnd'
+        right; right
+        rw [e1, e2, e3]
+        exact ⟨by omega, by omega, by omega⟩
+    obtain ⟨a, ha, hap, hat⟩ := exists_of_countP_lt pastT isProd hlt
+    obtain ⟨j, hj⟩ := List.getElem?_of_mem ha
+    have hk := wake_kind a (hb.tok a ha)
+    have hPP : c.sh.enqWait ≠ [] := by
+      rcases hpark' j a hj with h | h | h | h
+      · rw [h] at hap; simp [inertT, isProd, Prog.kind] at hap
+      · exfalso
+        apply hnd
+        apply hb.early
+        refine ⟨a, ha, ?_⟩
+        unfold early; unfold pastT at hat
+        rw [h] at hat ⊢
+        simp only [hap, Bool.true_and] at hat ⊢
+        simp [hat]
+      · rw [(hk.1 h).2.2] at hap; cases hap
+      · exact hpw j a hj h
+    rcases hv.k1 (Or.inl hPP) with h | h | h | h | h
+    · exact h hq
+    · exact h hen
+    · exact nDE h
+    · exact nCP h
+    · exact hnd h
+
 end MlModel.Queue
